@@ -48,13 +48,13 @@ macro_rules! lb {
     };
 }
 lb!(c26_o1_q_lb_1223, [1u8, 2, 2, 3]);
-lb!(c26_o1_q_lb_1133, [1u8, 1, 3, 3]);
-lb!(c26_o1_q_lb_2222, [2u8, 2, 2, 2]);
-lb!(c26_o1_q_lb_123, [1u8, 2, 3]);
+lb!(c26_o1_t_lb_1133, [1u8, 1, 3, 3]);
+lb!(c26_o1_t_lb_2222, [2u8, 2, 2, 2]);
+lb!(c26_o1_t_lb_123, [1u8, 2, 3]);
 
 #[kani::proof]
 #[kani::unwind(8)]
-fn c26_o1_q_lb_empty_and_single() {
+fn c26_o1_t_lb_empty_and_single() {
     let mut buf = [0u8; PAGE_SIZE];
     Page::new(&mut buf).init_leaf();
     let t: u8 = kani::any();
@@ -111,7 +111,7 @@ macro_rules! ins {
         }
     };
 }
-ins!(c26_o2_q_ins_123, [1u8, 2, 3]);
+ins!(c26_o2_t_ins_123, [1u8, 2, 3]);
 ins!(c26_o2_q_ins_22, [2u8, 2]);
 ins!(c26_o2_t_ins_1223, [1u8, 2, 2, 3]);
 
@@ -152,7 +152,7 @@ fn delete_on(keys: &[u8]) {
 }
 #[kani::proof]
 #[kani::unwind(8)]
-fn c26_o6_q_delete_from_leaf_1223() {
+fn c26_o6_t_delete_from_leaf_1223() {
     delete_on(&[1u8, 2, 2, 3]);
 }
 
@@ -204,7 +204,7 @@ fn c26_o4_q_descent_duplicates_straddle_split() {
 /// complement of the finding: for targets different from the separator the descent is right
 #[kani::proof]
 #[kani::unwind(8)]
-fn c26_o4_q_descent_duplicates_other_targets() {
+fn c26_o4_t_descent_duplicates_other_targets() {
     let mut root = [0u8; PAGE_SIZE];
     {
         let mut r = Page::new(&mut root);
@@ -281,7 +281,7 @@ fn c26_o5_q_delete_equal_keys_increasing_payloads() {
 #[kani::unwind(8)]
 #[kani::stub(Pager::read_page, stub_read_page)]
 #[kani::stub(Pager::write_page, stub_write_page)]
-fn c26_o5_q_delete_equal_keys_decreasing_payloads() {
+fn c26_o5_t_delete_equal_keys_decreasing_payloads() {
     delete_equal_keys(20, 10, kani::any());
 }
 
